@@ -26,7 +26,13 @@ const FAR: i64 = T0 + 30 * DAY;
 
 /// Payload objects of version `v` of CA `focus`: same names in every
 /// version, different content.
-fn objects(focus: &str, v: u32, rich: bool) -> Vec<ObjSpec> {
+///
+/// Besides the payload objects every version lists one file of each kind the
+/// engine tolerates without processing it: a second CRL (`old.crl`, a valid
+/// CRL of the CA, as left over from a key rollover), a Ghostbusters record
+/// and a file of unknown type. They are listed files like any other: the
+/// version may only be stored if they are present with the listed hash.
+fn objects(focus: &str, v: u32, rich: bool, old_crl: &[u8]) -> Vec<ObjSpec> {
     let (asn, pfx) = if focus == "root" { (64500 + v * 10, format!("192.{v}")) }
         else { (65000 + v * 10, format!("10.1.{}", v * 16)) };
     let pfx = |i: u32| if focus == "root" { format!("{pfx}.{i}.0/24") } else {
@@ -41,7 +47,23 @@ fn objects(focus: &str, v: u32, rich: bool) -> Vec<ObjSpec> {
         res.push(roa("m.roa", serial + 2, asn + 1, &pfx(1), None));
     }
     res.push(roa("z.roa", serial + 3, asn + 2, &pfx(2), None));
+    res.push(raw("old.crl", old_crl));
+    res.push(gbr("info.gbr", serial + 4));
+    res.push(raw("readme.txt", format!("version {v} of {focus}").as_bytes()));
     res
+}
+
+/// Position of `old.crl` among the objects of the child CA's versions.
+const OLD_CRL_POS: usize = 3;
+
+/// Another valid CRL (served in place of `old.crl` by the "replaced" fault).
+static ALT_CRL: std::sync::OnceLock<Vec<u8>> = std::sync::OnceLock::new();
+
+fn stray_crl(builder: &Builder, ca: &CaSpec, number: u64) -> Vec<u8> {
+    builder.crl(ca, &CrlSpec {
+        this_update: TU - DAY, next_update: FAR, number,
+        revoked: vec![4242], fault: Fault::None, publish: Publish::Normal,
+    })
 }
 
 /// A fault applied to version 2 of the focus CA (or to the transport).
@@ -75,10 +97,18 @@ fn fault_cases(n_objs: usize, thorough: bool) -> Vec<FaultCase> {
     for j in 0..n_objs {
         res.push(fc("obj-missing", |v, j| v.objects[j].publish = Publish::Missing, j));
         res.push(fc("obj-corrupt", |v, j| v.objects[j].publish = Publish::Corrupt, j));
-        if j == 0 || thorough {
+        if j == 0 || j == OLD_CRL_POS || j == OLD_CRL_POS + 1 || thorough {
             res.push(fc("obj-replaced", |v, j| {
-                let mut other = roa(&v.objects[j].name.clone(), 990 + j as u64, 65900 + j as u32, "10.1.250.0/24", None);
-                other.name = v.objects[j].name.clone();
+                let name = v.objects[j].name.clone();
+                let other = if name.ends_with(".crl") {
+                    // another valid CRL of a CA under the name
+                    raw(&name, ALT_CRL.get().map(|b| b.as_slice()).unwrap_or(b"no crl"))
+                }
+                else {
+                    let mut other = roa(&name, 990 + j as u64, 65900 + j as u32, "10.1.250.0/24", None);
+                    other.name = name;
+                    other
+                };
                 v.objects[j].publish = Publish::Replace(Box::new(other));
             }, j));
         }
@@ -155,10 +185,13 @@ fn setup(focus: &str, rich: bool, thorough: bool) -> Setup {
         if other == "root" { "192.0.2.0/24" } else { "10.1.255.0/24" }, None));
     world.ca_mut(other).unwrap().versions.push(v);
 
+    let builder = Builder::new();
+    let focus_spec = world.ca(focus).unwrap().clone();
+    let _ = ALT_CRL.set(stray_crl(&builder, world.ca("kid").unwrap(), 999));
     let mk = |number: u64, this_update: i64, v: u32| {
         let mut res = version(number, this_update, FAR);
         if focus == "root" { res.objects.push(kid_cert()) }
-        res.objects.extend(objects(focus, v, rich));
+        res.objects.extend(objects(focus, v, rich, &stray_crl(&builder, &focus_spec, 900 + v as u64)));
         res
     };
     let mut versions = vec![mk(1, TU, 1), mk(2, TU + 600, 2), mk(3, TU + 1200, 3)];
@@ -476,6 +509,32 @@ fn generate(ctx: &mut Ctx) -> Vec<Value> {
                 run(&kid, NOW2, Some(second), None, false),
                 run(&kid, NOW3, Some(kid.v3), None, true),
             ], extra(kind.clone()), 1, &format!("{kind:?} {label}")));
+        }
+    }
+
+    // F. The second CRL missing / corrupt / replaced by another valid CRL,
+    //    processed first and processed last, with and without a stored version.
+    //    Entries by name: a.roa info.gbr kid.crl m.asa old.crl readme.txt z.roa.
+    for fault in ["obj-missing", "obj-corrupt", "obj-replaced"] {
+        let label = format!("{fault}@{OLD_CRL_POS}");
+        let version = find(&label);
+        for (pos, perm) in [("first", vec![4usize, 0, 1, 2, 3, 5, 6]), ("last", vec![0, 1, 2, 3, 5, 6, 4])] {
+            let faulty = |update: bool| {
+                let mut spec = run(&kid, NOW2, Some(version), None, update);
+                spec.order = Order::Table(vec![perm.clone()]);
+                spec
+            };
+            ctx.nontrivial(format!("kid second-crl {fault} {pos}"));
+            cases.push(case_json(&kid, &rich_opts, vec![
+                run(&kid, NOW1, Some(kid.v1), None, true),
+                faulty(true), faulty(false),
+                run(&kid, NOW3, Some(kid.v3), None, true),
+            ], vec![], 1, &format!("second-crl {fault} {pos}")));
+            ctx.nontrivial(format!("kid first second-crl {fault} {pos}"));
+            cases.push(case_json(&kid, &rich_opts, vec![
+                faulty(true), faulty(false),
+                run(&kid, NOW3, Some(kid.v2), None, true),
+            ], vec![], 0, &format!("first second-crl {fault} {pos}")));
         }
     }
 
